@@ -1,4 +1,5 @@
 import Crusta.Proofs.Oracle
+import Crusta.Proofs.StaticAll
 
 /-! # C03 — skeptical acceptance (property theorems) -/
 
@@ -16,5 +17,25 @@ theorem no_extension_all_skeptical (af : AF) (hwf : af.WF) (σ : Sem) (a : Nat)
     (h : ¬ ∃ S, σ.Ext af S) : σ.skepB af [a] = true := by
   rw [skepB_iff σ af hwf]
   intro S hS; exact absurd ⟨S, hS⟩ h
+
+
+/-- **C03 on the solver programs**: the status of a skeptical query is YES exactly when every
+extension of `g` contains one of the queried arguments (vacuously when there is none) -/
+theorem skeptical_status_exact (sk : SolverKind) (cfg : Cfg) (hcfg : CfgOK sk cfg) (v : FwView) (g : G) (hv : v.Ok g)
+    (cert : Bool) (args : List Nat) (hargs : ∀ a ∈ args, g.live a = true)
+    (p : Prog Ans) (hp : entryProg sk cfg v (.ds cert args) = some p) (w : World) (hb : w.Bounded)
+    (rs : List Reply) (hs : RunSound p rs w) (a : AccAns) (cv : Bool) (w' : World)
+    (hrun : interp p rs w = (.done (.acc a cv), w')) :
+    (a.status = true ↔ ∀ S, sk.sem.GExt g S → HitsL args S) := by
+  have h := static_answers_conform sk cfg hcfg v g hv (.ds cert args) (fun x hx => hargs x hx) p hp w hb rs hs _ w' hrun
+  obtain ⟨_, hds, _⟩ := h
+  constructor
+  · intro hst; exact (hds.1 hst).1
+  · intro hall
+    cases hst : a.status with
+    | true => rfl
+    | false =>
+      obtain ⟨S, hS, hn⟩ := (hds.2 hst).1
+      exact absurd (hall S hS) hn
 
 end Crusta.C03
